@@ -26,6 +26,8 @@ func init() {
 		Rule{ID: "R10c", Doc: "only the selected upstream", Floor: 4, Run: r10c},
 		Rule{ID: "R10d", Doc: "loader errors", Floor: 8, Run: r10d},
 		Rule{ID: "R10e", Doc: "strict decoding", Floor: 20, Run: r10e},
+		Rule{ID: "R11a", Doc: "the domain trie's nil-marker maps are read and written consistently (a rule condition that silently never matches sends the query to a later rule; shared with C11)", Floor: 4, AllVariants: true, Run: r11a},
+		Rule{ID: "R11b", Doc: "the trie's insert and lookup agree on walk direction and on the short/long label threshold (shared with C11)", Floor: 8, AllVariants: true, Run: r11b},
 		Rule{ID: "R20b", Doc: "the forwarded question is not recycled under the refresh goroutine (shared with C20)", Floor: 20, Run: r20b},
 	)
 	reg("C17", "Structural necessary conditions of `peers are reached and authenticated as configured`, decided for all paths: "+
